@@ -45,8 +45,8 @@ CLAIMED.update({
         "design_ref": "DESIGN.md 4.6",
         "technique": "Coq proof by induction over heterogeneous value lists, width-generic bit lemmas; correspondence by "
                      "extracted OCaml model",
-        "note": "8 theorems closed under the global context. Known findings F26 (snake recursion), F27 (extern address "
-                "of length 0) are reported as KNOWN-FINDING.",
+        "note": "8 theorems closed under the global context. Known finding F26 (snake recursion) is reported as "
+                "KNOWN-FINDING.",
     },
     "C07": {
         "text": "Machine-checked proof over all store-operation histories that the builder model never exceeds 1023 bits / "
@@ -215,7 +215,9 @@ CLAIMED.update({
         "technique": "Coq proof of an exact visit-count identity by nested induction on the instrumented traversal; counting "
                      "lemmas for the parser model; call-count measurements on the implementation",
         "note": "5 theorems closed under the global context. The iterative Python loop is modelled by its recursive "
-                "formulation (same order, visits counted per call); library primitives are unit cost.",
+                "formulation (same order, visits counted per call); library primitives are unit cost. Known finding F32 "
+                "(a DAG-shaped valid dictionary is expanded eagerly into a dict: exponential in the input) is reported as "
+                "KNOWN-FINDING.",
     },
 })
 
